@@ -53,4 +53,14 @@ Inv_C08 == \A c \in Live : LET A(m, md, x) == SpecA(c, m, md, x) IN \A s \in Pro
 Prop_C05 == [][ (Len(hist') > Len(hist) /\ hist'[Len(hist')].k = "add") =>
                  LET op == hist'[Len(hist')] IN
                  P_C05_step(convs[op.i], op.rec, op.cs, op.mg, [out |-> last', conv |-> convs'[op.i]]) ]_vars
+\* REFINEMENT BRIDGE to the proved relation (StepRel.tla, tlaps/C05_Step.tla): every add step of the operational
+\* specification is a step of the record-set relation about which TLAPS proves, without any bound, that one owner per
+\* prefix and the freshness of the prefix map are preserved
+SR == INSTANCE StepRel WITH Fold <- CF
+P4(r) == [p |-> r.p, u |-> r.u, ps |-> r.ps, us |-> r.us]
+Recs4(c) == {P4(r) : r \in RecSet(c)}
+Prop_Bridge == [][ (Len(hist') > Len(hist) /\ hist'[Len(hist')].k = "add") =>
+                    LET op == hist'[Len(hist')] IN
+                    (ValidRec(op.rec) /\ OneOwner(convs[op.i])) =>
+                       SR!StepRel(Recs4(convs[op.i]), convs[op.i].pm, P4(op.rec), op.cs, op.mg, Recs4(convs'[op.i]), convs'[op.i].pm) ]_vars
 =============================================================================
